@@ -34,6 +34,10 @@ type renegScript struct {
 	// f builds what the server sends after it has read (or failed to read) the client's
 	// renegotiation ClientHello ch2 (nil when none arrived or it did not parse).
 	f func(rg *rand.Rand, ch2 *wire.ClientHello) []renegRec
+	// g, if set, is used instead of f: it also gets the renegotiation_info body that is
+	// correct for this connection (both verify_data values of the first handshake), so
+	// that the client's processing goes beyond the extension check
+	g func(rg *rand.Rand, ch2 *wire.ClientHello, ri []byte) []renegRec
 }
 
 func hsRec(msgs ...[]byte) renegRec {
@@ -139,14 +143,14 @@ func renegScripts() []renegScript {
 	helloRequest := hsMsg(0, nil)
 	smuts := serverHelloMuts()
 	return []renegScript{
-		{"nothing", func(rg *rand.Rand, ch2 *wire.ClientHello) []renegRec { return nil }},
-		{"sh13", func(rg *rand.Rand, ch2 *wire.ClientHello) []renegRec {
+		{name: "nothing", f: func(rg *rand.Rand, ch2 *wire.ClientHello) []renegRec { return nil }},
+		{name: "sh13", f: func(rg *rand.Rand, ch2 *wire.ClientHello) []renegRec {
 			return []renegRec{hsRec(shFor(rg, ch2, true).Marshal())}
 		}},
-		{"sh13_then_flight", func(rg *rand.Rand, ch2 *wire.ClientHello) []renegRec {
+		{name: "sh13_then_flight", f: func(rg *rand.Rand, ch2 *wire.ClientHello) []renegRec {
 			return []renegRec{hsRec(shFor(rg, ch2, true).Marshal()), {20, []byte{1}}, {23, randBytes(rg, 60)}}
 		}},
-		{"hrr", func(rg *rand.Rand, ch2 *wire.ClientHello) []renegRec {
+		{name: "hrr", f: func(rg *rand.Rand, ch2 *wire.ClientHello) []renegRec {
 			sh := shFor(rg, ch2, true)
 			sh.Random = append([]byte(nil), wireHRRRandom...)
 			sh.SetExt(wire.ExtKeyShare, be16([]uint16{0x0017, 0x0018, 0x001d, 0x11ec}[rg.Intn(4)]))
@@ -155,10 +159,10 @@ func renegScripts() []renegScript {
 			}
 			return []renegRec{hsRec(sh.Marshal())}
 		}},
-		{"sh12", func(rg *rand.Rand, ch2 *wire.ClientHello) []renegRec {
+		{name: "sh12", f: func(rg *rand.Rand, ch2 *wire.ClientHello) []renegRec {
 			return []renegRec{hsRec(shFor(rg, ch2, false).Marshal())}
 		}},
-		{"sh12_flight", func(rg *rand.Rand, ch2 *wire.ClientHello) []renegRec {
+		{name: "sh12_flight", f: func(rg *rand.Rand, ch2 *wire.ClientHello) []renegRec {
 			ske := hsMsg(12, append([]byte{3, 0, 0x1d, 32}, append(randBytes(rg, 32), append([]byte{4, 1}, vec16(randBytes(rg, 256))...)...)...))
 			msgs := [][]byte{shFor(rg, ch2, false).Marshal(), certMsg(), ske}
 			if rg.Intn(2) == 0 {
@@ -174,19 +178,44 @@ func renegScripts() []renegScript {
 			}
 			return out
 		}},
-		{"sh12_resumption_shaped", func(rg *rand.Rand, ch2 *wire.ClientHello) []renegRec {
+		// the same flight with the renegotiation_info this connection calls for: the client
+		// gets as far as the certificate (same identity / another identity) and the signature
+		{name: "sh12_flight_valid_renegotiation_info", g: func(rg *rand.Rand, ch2 *wire.ClientHello, ri []byte) []renegRec {
+			sh := shFor(rg, ch2, false)
+			sh.SetExt(wire.ExtRenegotiationInfo, ri)
+			cm := certMsg()
+			if rg.Intn(3) == 0 {
+				var list []byte
+				for _, der := range f.ECDSA.Certificate {
+					list = append(list, byte(len(der)>>16), byte(len(der)>>8), byte(len(der)))
+					list = append(list, der...)
+				}
+				cm = hsMsg(11, append([]byte{byte(len(list) >> 16), byte(len(list) >> 8), byte(len(list))}, list...))
+			}
+			ske := hsMsg(12, append([]byte{3, 0, 0x1d, 32}, append(randBytes(rg, 32), append([]byte{8, 4}, vec16(randBytes(rg, 256))...)...)...))
+			msgs := [][]byte{sh.Marshal(), cm, ske, hsMsg(14, nil)}
+			if rg.Intn(2) == 0 {
+				return []renegRec{hsRec(msgs...)}
+			}
+			var out []renegRec
+			for _, m := range msgs {
+				out = append(out, hsRec(m))
+			}
+			return out
+		}},
+		{name: "sh12_resumption_shaped", f: func(rg *rand.Rand, ch2 *wire.ClientHello) []renegRec {
 			sh := shFor(rg, ch2, false)
 			if ch2 != nil {
 				sh.SessionID = append([]byte(nil), ch2.SessionID...)
 			}
 			return []renegRec{hsRec(sh.Marshal()), {20, []byte{1}}, hsRec(hsMsg(20, randBytes(rg, 12)))}
 		}},
-		{"sh_other_version", func(rg *rand.Rand, ch2 *wire.ClientHello) []renegRec {
+		{name: "sh_other_version", f: func(rg *rand.Rand, ch2 *wire.ClientHello) []renegRec {
 			sh := shFor(rg, ch2, false)
 			sh.Version = []uint16{0x0300, 0x0301, 0x0302, 0x0304, 0x0305, 0x0000, 0xffff}[rg.Intn(7)]
 			return []renegRec{hsRec(sh.Marshal())}
 		}},
-		{"sh_field_mutation", func(rg *rand.Rand, ch2 *wire.ClientHello) []renegRec {
+		{name: "sh_field_mutation", f: func(rg *rand.Rand, ch2 *wire.ClientHello) []renegRec {
 			m := shFor(rg, ch2, rg.Intn(2) == 0).Marshal()
 			c := ch2
 			if c == nil {
@@ -198,7 +227,7 @@ func renegScripts() []renegScript {
 			}
 			return []renegRec{hsRec(m)}
 		}},
-		{"sh_generic_mutation", func(rg *rand.Rand, ch2 *wire.ClientHello) []renegRec {
+		{name: "sh_generic_mutation", f: func(rg *rand.Rand, ch2 *wire.ClientHello) []renegRec {
 			m := shFor(rg, ch2, rg.Intn(2) == 0).Marshal()
 			gm := genericMutations[rg.Intn(len(genericMutations))]
 			if out := gm.f(rg, append([]byte(nil), m...)); out != nil {
@@ -206,7 +235,7 @@ func renegScripts() []renegScript {
 			}
 			return []renegRec{hsRec(m)}
 		}},
-		{"more_hello_requests", func(rg *rand.Rand, ch2 *wire.ClientHello) []renegRec {
+		{name: "more_hello_requests", f: func(rg *rand.Rand, ch2 *wire.ClientHello) []renegRec {
 			n := []int{1, 2, 17, 40}[rg.Intn(4)]
 			var out []renegRec
 			for i := 0; i < n; i++ {
@@ -214,10 +243,10 @@ func renegScripts() []renegScript {
 			}
 			return out
 		}},
-		{"hello_request_then_sh12_then_hello_request", func(rg *rand.Rand, ch2 *wire.ClientHello) []renegRec {
+		{name: "hello_request_then_sh12_then_hello_request", f: func(rg *rand.Rand, ch2 *wire.ClientHello) []renegRec {
 			return []renegRec{hsRec(helloRequest, shFor(rg, ch2, false).Marshal(), helloRequest)}
 		}},
-		{"random_handshake_messages", func(rg *rand.Rand, ch2 *wire.ClientHello) []renegRec {
+		{name: "random_handshake_messages", f: func(rg *rand.Rand, ch2 *wire.ClientHello) []renegRec {
 			var out []renegRec
 			for i := 0; i < 1+rg.Intn(4); i++ {
 				typ := []byte{0, 1, 2, 3, 4, 5, 8, 11, 12, 13, 14, 15, 16, 20, 22, 24, 25, 67, 254, 255, byte(rg.Intn(256))}[rg.Intn(21)]
@@ -225,29 +254,29 @@ func renegScripts() []renegScript {
 			}
 			return out
 		}},
-		{"appdata_then_sh12", func(rg *rand.Rand, ch2 *wire.ClientHello) []renegRec {
+		{name: "appdata_then_sh12", f: func(rg *rand.Rand, ch2 *wire.ClientHello) []renegRec {
 			return []renegRec{{23, []byte("early")}, hsRec(shFor(rg, ch2, false).Marshal())}
 		}},
-		{"alerts", func(rg *rand.Rand, ch2 *wire.ClientHello) []renegRec {
+		{name: "alerts", f: func(rg *rand.Rand, ch2 *wire.ClientHello) []renegRec {
 			var out []renegRec
 			for i := 0; i < []int{1, 3, 20, 40}[rg.Intn(4)]; i++ {
 				out = append(out, renegRec{21, []byte{1, []byte{0, 100, 90, 41}[rg.Intn(4)]}})
 			}
 			return append(out, renegRec{21, []byte{2, byte(rg.Intn(120))}})
 		}},
-		{"ccs", func(rg *rand.Rand, ch2 *wire.ClientHello) []renegRec {
+		{name: "ccs", f: func(rg *rand.Rand, ch2 *wire.ClientHello) []renegRec {
 			return []renegRec{{20, []byte{1}}, hsRec(shFor(rg, ch2, false).Marshal())}
 		}},
-		{"clienthello_echo", func(rg *rand.Rand, ch2 *wire.ClientHello) []renegRec {
+		{name: "clienthello_echo", f: func(rg *rand.Rand, ch2 *wire.ClientHello) []renegRec {
 			if ch2 == nil {
 				return []renegRec{hsRec(hsMsg(1, randBytes(rg, 80)))}
 			}
 			return []renegRec{hsRec(ch2.Raw)}
 		}},
-		{"certificate_first", func(rg *rand.Rand, ch2 *wire.ClientHello) []renegRec {
+		{name: "certificate_first", f: func(rg *rand.Rand, ch2 *wire.ClientHello) []renegRec {
 			return []renegRec{hsRec(certMsg(), hsMsg(14, nil))}
 		}},
-		{"fragmented_sh12", func(rg *rand.Rand, ch2 *wire.ClientHello) []renegRec {
+		{name: "fragmented_sh12", f: func(rg *rand.Rand, ch2 *wire.ClientHello) []renegRec {
 			m := shFor(rg, ch2, false).Marshal()
 			var out []renegRec
 			for i := 0; i < len(m); i += 3 {
@@ -255,7 +284,7 @@ func renegScripts() []renegScript {
 			}
 			return out
 		}},
-		{"tls13_post_handshake_messages", func(rg *rand.Rand, ch2 *wire.ClientHello) []renegRec {
+		{name: "tls13_post_handshake_messages", f: func(rg *rand.Rand, ch2 *wire.ClientHello) []renegRec {
 			// meaningful on TLS 1.3 connections: ticket / key update / certificate request shapes
 			nst := hsMsg(4, append(append(randBytes(rg, 8), vec8(randBytes(rg, rg.Intn(9)))...), append(vec16(randBytes(rg, 1+rg.Intn(300))), 0, 0)...))
 			ku := hsMsg(24, []byte{byte(rg.Intn(3))})
@@ -314,6 +343,10 @@ type renegCase struct {
 	// warm13: the client's session cache already holds a TLS 1.3 session for this server
 	// (a first, clean connection to a TLS 1.3 server is made with the same cache)
 	warm13 bool
+	// certless: the connection under test resumes a session forged without certificates
+	// (MakeClientSessionState(ticket, vers, suite, secret, nil, nil) + SetSessionState, the
+	// README way): it has no peer certificates when the server speaks again
+	certless bool
 	// reneg: Config.Renegotiation of the client, -1 = left as the preset sets it
 	reneg int
 	// preRequest: application data the server sends before the HelloRequest
@@ -328,6 +361,7 @@ type renegCase struct {
 }
 
 type renegResult struct {
+	resumed bool
 	c33Result
 	gotHello2   bool // the client answered the HelloRequest with a ClientHello
 	hello2Parse bool
@@ -359,13 +393,38 @@ func c33RunReneg(cs renegCase) renegResult {
 			return res
 		}
 	}
+	scfg := cs.kind.cfg()
+	var forged *tls.ClientSessionState
+	if cs.certless {
+		// a clean first connection to the same server Config (same ticket keys)
+		wc := newMapCache()
+		cache = tls.NewLRUClientSessionCache(4)
+		wcfg := newCfg()
+		wcfg.ClientSessionCache = wc
+		hs := peer.Run(wcfg, cs.tg.ClientID(), scfg, peer.Opts{Prepare: cs.tg.Prepare()})
+		if hs == nil || hs.ClientErr != nil || wc.Any() == nil || wc.Any().Vers() >= tls.VersionTLS13 {
+			res.phase = "warmup-failed"
+			return res
+		}
+		st := wc.Any()
+		forged = tls.MakeClientSessionState(st.SessionTicket(), st.Vers(), st.CipherSuite(), append([]byte(nil), st.MasterSecret()...), nil, nil)
+		forged.SetEMS(st.EMS())
+	}
 	c, s, tap := peer.Pipe()
 	defer c.Close()
 	defer s.Close()
 	c.SetDeadline(time.Now().Add(c33ClientDeadline))
 	s.SetDeadline(time.Now().Add(c33ClientDeadline + 2*time.Second))
-	server := tls.Server(s, cs.kind.cfg())
-	tls.VerifAttach(server, &tls.VerifPlan{})
+	server := tls.Server(s, scfg)
+	// the server's own Finished (in the clear, before record protection): its verify_data is
+	// the second half of a correct renegotiation_info
+	var serverVerifyData []byte
+	tls.VerifAttach(server, &tls.VerifPlan{RewriteOut: func(isClient bool, data []byte) []byte {
+		if !isClient && len(data) == 16 && data[0] == 20 {
+			serverVerifyData = append([]byte(nil), data[4:]...)
+		}
+		return nil
+	}})
 	stop := make(chan struct{})
 	sdone := make(chan struct{})
 	go func() {
@@ -391,7 +450,20 @@ func c33RunReneg(cs renegCase) renegResult {
 				res.hello2Parse = true
 			}
 		}
-		for _, rec := range cs.script.f(rg, ch2) {
+		var recs []renegRec
+		if cs.script.g != nil {
+			// the client's half is what its renegotiation hello carries
+			var ri []byte
+			if ch2 != nil {
+				if e := ch2.Ext(wire.ExtRenegotiationInfo); e != nil && len(e.Data) == 13 {
+					ri = vec8(append(append([]byte(nil), e.Data[1:]...), serverVerifyData...))
+				}
+			}
+			recs = cs.script.g(rg, ch2, ri)
+		} else {
+			recs = cs.script.f(rg, ch2)
+		}
+		for _, rec := range recs {
 			if tls.VerifWriteRecord(server, rec.typ, rec.data) != nil {
 				return
 			}
@@ -430,11 +502,18 @@ func c33RunReneg(cs renegCase) renegResult {
 				return err
 			}
 		}
+		if forged != nil {
+			if err := u.SetSessionState(forged); err != nil {
+				res.phase = "prepare"
+				return err
+			}
+		}
 		res.phase = "handshake"
 		if err := u.Handshake(); err != nil {
 			return err
 		}
 		res.completed = true
+		res.resumed = u.ConnectionState().DidResume
 		res.version = u.ConnectionState().Version
 		res.phase = "read"
 		buf := make([]byte, 4096)
@@ -468,5 +547,5 @@ func c33RunReneg(cs renegCase) renegResult {
 }
 
 func renegCaseID(cs renegCase) string {
-	return fmt.Sprintf("reneg|%s|%s|%s|warm13=%v|reneg=%d|pre=%v|requests=%d|%d", cs.tg.Name, cs.kind.name, cs.script.name, cs.warm13, cs.reneg, cs.preRequest, cs.requests, cs.seed)
+	return fmt.Sprintf("reneg|%s|%s|%s|warm13=%v|certless=%v|reneg=%d|pre=%v|requests=%d|%d", cs.tg.Name, cs.kind.name, cs.script.name, cs.warm13, cs.certless, cs.reneg, cs.preRequest, cs.requests, cs.seed)
 }
